@@ -177,8 +177,10 @@ package fox
 //@   assert-at call (Header).Set#1 : location: same(arg_key, "Location")
 //@   assert-at call ResponseWriter.WriteHeader#1 : status: arg_self == w && arg_statusCode == code && wFinal[w] == old(wFinal[w]) && wBody[w] == old(wBody[w])
 
-//@ func defaultRedirectTrailingSlashHandler props C08 partial
+//@ func defaultRedirectTrailingSlashHandler props C08
 //@   requires c != nil
+//@   -- ServeHTTP only dispatches requests that have a URL
+//@   requires safety-url: ctxRequest(c, hCalls).URL != nil
 //@   modifies heap, wFinal, wFirst, wInfo, wBody
 //@   assert-at call FixTrailingSlash#1 : escaped-path: same(arg_path, escPath(req.URL))
 //@   assert-at call localRedirect#1 : code: (req.Method == "GET" ==> arg_code == 301) && (req.Method != "GET" ==> arg_code == 308)
